@@ -75,7 +75,12 @@ where
         let fut = f(c.clone());
         async move {
             let t = std::time::Instant::now();
-            let (nontrivial, res) = fut.await;
+            // (a cell that blocks its thread is beyond this; the engine's global deadline catches it)
+            let secs = std::env::var("VERIF_CELL_WATCHDOG_S").ok().and_then(|s| s.parse().ok()).unwrap_or(150u64);
+            let (nontrivial, res) = match tokio::time::timeout(std::time::Duration::from_secs(secs), fut).await {
+                Ok(r) => r,
+                Err(_) => (true, Err(fail("hung", "cell", format!("the cell did not finish within {secs} s (every wait inside it is bounded well below that): {c}")))),
+            };
             CellOut { case: c, nontrivial, res, wall_ms: t.elapsed().as_millis() }
         }
     }))
